@@ -45,7 +45,8 @@ class C05(props.BaseProp):
             "10%, two-block disconnected graphs 25%, ring+chord graphs with many equal-length ties 14%; weighted "
             "(weights {1,2,3}) or hop-count (weights NaN/mixed, ignored) x normalized/raw; plus 3% hop-count graphs of "
             "21-23 nodes (rayon path). Compared with the Coq model: build outcome, call outcome, sorted name->value map "
-            "(1e-9), flags 51 (heap tie choice unobservable) and 52 (model = brute-force definition, n<=8). Oracle on "
+            "(1e-9), flags 51 (heap tie choice unobservable), 52 (model = brute-force definition, n<=8) and 53 (rows list a "
+            "neighbour once, indexes in range, weighted costs > 0: the hypotheses of the model-level theorems). Oracle on "
             "the implementation: one entry per node and every value equal to the definition computed independently in "
             "Python (exact rationals). non-trivial = some node has non-zero betweenness; distinct = distinct case text")
 
@@ -134,27 +135,39 @@ class C05(props.BaseProp):
 
 P = props.register(C05())
 P.manifest = {
-    "text": "HOP-COUNT MODE PROVED IN FULL (unbounded, axiom-free): for every graph state, the vector returned by the "
+    "text": "BOTH MODES PROVED IN FULL (unbounded, axiom-free). HOP-COUNT: for every graph state, the vector returned by the "
             "transcribed betweenness_centrality (queue BFS stage with D/sigma/P/S, dependency accumulation excluding the "
             "source, all sources in index order on the serial or the rayon path, rescaling) equals bc_def: the sum over "
             "ordered pairs (s,t), s<>v<>t, of the fraction of shortest s-t paths (brute-force enumeration of simple paths, "
             "those of minimal length) through v; raw undirected halved; normalised divided by (n-1)(n-2) for n>2 "
             "(C05_brandes_hop_count, C05_model_hop_count; via loop invariant of the stage, exactness of the path "
-            "enumeration, Brandes' dependency recurrence and its uniqueness). Also for all graphs: endpoints never count, "
-            "pairs without a path contribute nothing, <=2 nodes => all 0, one entry per node, the four get_scale cases, "
-            "rayon path = serial path, fuel never exhausted. WEIGHTED MODE: proved for all graphs and every heap tie choice: the "
-            "stage finalises the true shortest distances (C05_stage_dijkstra_distances_partial); 'model = definition' is "
-            "NOT proved for weighted graphs, it is validated per generated graph inside Coq in exact rationals "
-            "(observation 52, n<=8).",
-    "note": "Hypothesis of the hop-count theorem: the adjacency read (successors_vec) lists each neighbour once per row and "
-            "all indexes are in range - checked per case (observation 53, sound by C05_rows_check_sound; adj_ok is also "
-            "checked by the model itself). The definition is evaluated on that adjacency; that it represents the stored "
-            "edges is property C03 and is covered here by the independent Python oracle from the edge list. Trusted: Coq "
-            "kernel + vm_compute; harness/printers/diff (1e-9 on reals). Modelled not verified: IEEE rounding (model in Q), "
-            "BinaryHeap pop among equal distances (first/last-minimal oracle; observation 51 checks per case that the "
-            "result does not depend on it), rayon indexed collect (index-order map, proved equal to the serial loop). A "
-            "NaN weight in weighted mode is outside the modelled domain (never generated). Axioms: none.",
-    "technique": "Coq proof (loop invariants, combinatorics of shortest-path counts) + per-case validation against the "
-                 "executable definition for weighted mode + differential correspondence vs vm_compute model + independent "
-                 "definitional oracle on the implementation",
+            "enumeration, Brandes' dependency recurrence and its uniqueness). WEIGHTED (C05_brandes_weighted, "
+            "C05_model_weighted): the same equality with shortest = minimal total weight, for every graph whose costs are "
+            "strictly positive integers and for EVERY tie choice of the BinaryHeap: loop invariant of the heap stage "
+            "(distances; S = reachable nodes in non-decreasing distance; P[w] = tight incoming edges, reset on a strict "
+            "improvement and extended on a tie; sigma[src] = 2 by the `sigma[v] += sigma[pred]` quirk at the pop of the "
+            "source's own entry, sigma[w] = sum over P[w] elsewhere with the discoverer's share added at w's pop, hence "
+            "sigma[w] = 2 * #shortest paths, C05_stage_dijkstra_sigma_counts_paths), exactness of the path enumeration "
+            "for weights, Brandes' lemma generically in the shortest-path DAG, and invariance of the dependency "
+            "recurrence under a uniform sigma factor (C05_recurrence_ignores_uniform_sigma_factor). Also for all graphs: "
+            "endpoints never count, pairs without a path contribute nothing, <=2 nodes => all 0, one entry per node, the "
+            "four get_scale cases, rayon path = serial path; the fuel the model passes is never exhausted in either mode "
+            "(C05_stage_bfs_total, C05_stage_dijkstra_total, C05_weighted_total).",
+    "note": "Hypotheses of the two model-level theorems: the adjacency read (successors_vec) lists each neighbour once per "
+            "row, all indexes are in range and, in weighted mode, every cost is > 0 (integrality is by construction of the "
+            "model's weights) - checked per case (observation 53, sound by C05_rows_check_sound / C05_rows_pos_check_sound; "
+            "adj_ok is also checked by the model itself). Zero or negative weights are outside the theorem (and outside "
+            "the property: Dijkstra-style stages need positive costs). The definition is evaluated on that adjacency; that "
+            "it represents the stored edges is property C03 and is covered here by the independent Python oracle from the "
+            "edge list. Observations 52 (model = brute-force definition, n<=8, exact rationals) and 51 (heap tie choice "
+            "unobservable) are now consequences of the theorems for the model; they are kept as correspondence checks. "
+            "Trusted: Coq kernel + vm_compute; harness/printers/diff (1e-9 on reals). Modelled not verified: IEEE rounding "
+            "(model in Q), BinaryHeap pop among equal distances (first/last-minimal oracle in the executable model; the "
+            "theorems hold for both values of the oracle and their stage invariant only uses 'some minimal entry is "
+            "popped'), rayon indexed collect (index-order map, proved equal to the serial loop). A NaN weight in weighted "
+            "mode is outside the modelled domain (never generated). Axioms: none.",
+    "technique": "Coq proof (loop invariants of both single-source stages, exact path enumeration, combinatorics of "
+                 "shortest-path counts generic in the shortest-path DAG) + differential correspondence vs vm_compute model "
+                 "(incl. per-case evaluation of the executable definition) + independent definitional oracle on the "
+                 "implementation",
 }
